@@ -106,7 +106,8 @@ struct HCall {
 };
 struct OpResult {
     bool done = false;
-    uint64_t digest = 0;
+    uint64_t digest = 0;      // everything observable of the call, including the process-wide settings left behind
+    uint64_t digest_core = 0; // the same without the settings fingerprint
     int64_t ret = 0;
     int64_t raw = 0; // the library function's own return value
     bool raw_set = false;
